@@ -8,6 +8,12 @@ NOTE = ("Trusted: go/ssa translation (x/tools v0.29.0), the engine's SSA semanti
         "Claim is bounded: every input inside the per-harness bounds recorded in the evidence; nothing outside them. ")
 
 claimed = {
+ "C19": dict(text="Bounded model checking of the embedded key-value store (lib/others/qdb) against an in-memory map with the crash point as a variable: every workload of 3 (thorough 4) operations from "
+                  "{Put, Del, Sync, Defrag(force), Close+reopen} on two keys with arbitrary two-byte values, syncing on every change or on demand, run on a file map in which every create / write / remove is a possible crash point: "
+                  "after every operation Get and Count agree with the map; after a clean Close or a crash before the k-th file operation (k arbitrary) a reopen succeeds and every key holds its last synced value or one written later, exactly the last one after a clean Close.",
+             ref="6/C19", note=NOTE + "The file system is an in-memory map inside the harness (os / filepath / ioutil functions replaced; writes atomic and durable in program order; a crash loses nothing already written: torn writes and reordering by the operating system are outside). "
+                  "Counterexamples are replayed natively by running the same workload in a child process under gdb, killed at every entry to / return from an openat, write or unlinkat system call, and reopening the directory in a second child. "
+                  "Outside: values beyond 2 bytes, more than two keys, NO_CACHE / NO_BROWSE flags, volatile mode, automatic defragmentation thresholds, longer histories. "),
  "C17": dict(text="Bounded model checking of the inductive step of the per-address balance index (client/wallet TxNotifyAdd / TxNotifyDel, NewUTXO / all_del_utxos): from every index state in which one address holds 0..3 outputs "
                   "(list or map representation, arbitrary values at or above an arbitrary minimum) one UTXO notification - a two-output transaction with arbitrary scripts and values, or a removal with an arbitrary spent mask, "
                   "also of never-indexed outputs - leaves each address record equal to the projection of the changed set (members, count, total, no record for an empty address); and the link to the UTXO database: "
@@ -69,7 +75,6 @@ na = {
  "C11": "quantifies over thread interleavings; the engine executes one sequential schedule (DESIGN.md 6/C11)",
  "C12": "invariant over histories of five mutually referencing global pointer maps and sorted lists whose ordering and replacement decisions are float64 fee-rate comparisons (SPW/SPB): a symbolic pre-state satisfying the pool's representation invariant cannot be built within this engine (pointer-rich heap, no symbolic floats), and enumerating concrete pools would not be solver-based checking (DESIGN.md 6/C12)",
  "C16": "real-file I/O with a background writer; snappy resolves to assembly on amd64 (no SSA) (DESIGN.md 6/C16)",
- "C19": "file operations and crash points of the embedded key-value store (DESIGN.md 6/C19)",
  "C20": "the allocator hands out uintptr addresses inside mmap'ed pages and casts them to typed pointers; deciding it needs a raw-memory model (byte-addressed pages aliasing typed objects) that this go/ssa encoder does not have, and the routing arithmetic alone is not the property (DESIGN.md 0.3, 6/C20)",
 }
 
